@@ -197,7 +197,7 @@ class RawSession:
             except BlockingIOError:
                 return got
 
-    def send(self, op, oids=(), maxrep=None, iter_obj=None, names=None, itstart=None, oversize=False):
+    def send(self, op, oids=(), maxrep=None, iter_obj=None, names=None, itstart=None, oversize=False, walk=False):
         """oids: texts. For getnext/getbulk a fresh GetIter is created from oids[0] unless iter_obj is given
         (then `names` must carry the OID content the iterator will ask for)."""
         from gufo.snmp import _fast
@@ -227,7 +227,7 @@ class RawSession:
                            names=[list(n) for n in names] if names is not None else [],
                            itstart=list(itstart) if itstart is not None else [],
                            maxrep=bigint(maxrep if maxrep is not None else 0), exc=exc, bases=bases, nwire=len(wires),
-                           wire=list(wire), interp=interp, oversize=bool(oversize)))
+                           wire=list(wire), interp=interp, oversize=bool(oversize), walk=bool(walk)))
         return wire if wires else None, exc
 
     def inject(self, dgram, extra_interp=()):
